@@ -58,7 +58,7 @@ def snapshot(p):
 
 def validate_case(case):
     op, vals = case["op"], case["v"]
-    if op not in R.OPERATORS or case["platform"] not in ("ios", "nxos") or case["proto"] not in ("tcp", "udp"):
+    if op not in R.OPERATORS or case["platform"] not in ("ios", "nxos", "asa") or case["proto"] not in ("tcp", "udp"):
         raise Invalid()
     if not vals or any((not isinstance(x, int)) or not 1 <= x <= 65535 for x in vals):
         raise Invalid()
@@ -168,7 +168,7 @@ def enum_ltgt(tier, shard, nshards):
     for n in values:
         for op in ops:
             if idx % nshards == shard:
-                yield {"op": op, "v": [n], "platform": "ios" if n % 2 else "nxos", "proto": "tcp" if n % 3 else "udp",
+                yield {"op": op, "v": [n], "platform": ("ios", "nxos", "asa")[n % 3], "proto": "tcp" if n % 2 else "udp",
                        "nm": [0 if n % 5 == 0 else -1], "port_nr": n % 11 == 0}
             idx += 1
 
@@ -186,7 +186,7 @@ def enum_range(tier, shard, nshards):
 
 @st.composite
 def obj_case(draw):
-    platform = draw(st.sampled_from(["ios", "ios", "nxos"]))
+    platform = draw(st.sampled_from(["ios", "ios", "nxos", "asa"]))
     proto = draw(st.sampled_from(["tcp", "udp"]))
     version = draw(st.sampled_from(["0", "0", "15.2(02)SY", "16.09.06", "9.3(8)"]))
     names = lib_port_names(6 if proto == "tcp" else 17, platform, version)
